@@ -191,7 +191,8 @@ def _jobs(ctx, quick):
         exact = formats.FORMATS[fmt]["exact"]
         fam = formats.FORMATS[fmt]["family"]
         for cls in classes:
-            for n in (2, 3, 4) if quick else (2, 3, 4, 5):
+            # 5 records: a first line with one column too many still lets the fields divide evenly among the lines (4+3+3+3+3)
+            for n in ((2, 3, 4, 5) if cls in ("column-count", "extra-column") else (2, 3, 4)) if quick else (2, 3, 4, 5):
                 specs = [SHAPES[fam][(i + n) % len(SHAPES[fam])] for i in range(n)] if exact else [(i + n) % 3 for i in range(n)]
                 if fmt == "bed3":
                     specs = [[5]] * n
